@@ -24,12 +24,15 @@ pub fn fold(n: &str) -> String {
     String::from_utf8_lossy(&rc::fold(n.as_bytes())).into_owned()
 }
 
-#[derive(Clone, Copy, Debug, PartialEq, Eq, Serialize, Deserialize)]
+#[derive(Clone, Debug, PartialEq, Eq, Serialize, Deserialize)]
 pub enum Op {
     Add { a: u8, prio: i32 },
     Remove { a: u8 },
     SetPriority { a: u8, prio: i32 },
     Clear,
+    /// `add_archives_parallel` with a batch; `bad` < 255: a path that is not an archive is put at
+    /// that position of the batch (clamped to its length), so the call must fail
+    AddBatch { items: Vec<(u8, i32)>, bad: u8 },
 }
 
 impl Op {
@@ -39,6 +42,8 @@ impl Op {
             Op::Remove { .. } => "remove",
             Op::SetPriority { .. } => "set_priority",
             Op::Clear => "clear",
+            Op::AddBatch { bad: 255, .. } => "add_batch",
+            Op::AddBatch { .. } => "add_batch_failing",
         }
     }
 }
@@ -207,6 +212,7 @@ pub struct Report {
     pub skipped_ops: usize,
     pub probes: u64,
     pub variant_hits: u64,
+    pub failed_batch_left_members: bool,
 }
 
 impl Report {
@@ -384,7 +390,51 @@ pub fn run_history(prep: &Prepared, ops: &[Op], probe_seed: u32, level: usize, p
     for op in ops {
         let before = winners_snapshot(&model, prep);
         let r: Result<(), Fail> = (|| {
-            match *op {
+            match op.clone() {
+                Op::AddBatch { items, bad } => {
+                    // members already present and repeats inside the batch are left out (duplicate
+                    // membership is outside the statement)
+                    let mut batch: Vec<(usize, i32)> = vec![];
+                    for (a, prio) in items {
+                        let a = a as usize % prep.paths.len();
+                        if model.pos(a).is_none() && !batch.iter().any(|b| b.0 == a) {
+                            batch.push((a, prio));
+                        }
+                    }
+                    let mut args: Vec<(PathBuf, i32)> = batch.iter().map(|&(a, p)| (prep.paths[a].clone(), p)).collect();
+                    if bad != 255 {
+                        let not_an_archive = prep.paths[0].with_file_name("not-an-archive.txt");
+                        if !not_an_archive.exists() {
+                            std::fs::write(&not_an_archive, b"this is not an MPQ archive").map_err(|e| Fail::new("harness:io", e.to_string()))?;
+                        }
+                        args.insert((bad as usize).min(args.len()), (not_an_archive, 7));
+                    }
+                    let r = engine::guard("chain::add_archives_parallel", || chain.add_archives_parallel(args))?;
+                    match (r, bad != 255) {
+                        (Ok(()), false) => {
+                            for (a, prio) in batch {
+                                model.clock += 1;
+                                let c = model.clock;
+                                model.members.push(Member { a, prio, added: c, touched: c });
+                            }
+                        }
+                        (Ok(()), true) => rep.push("chain:add_archives_parallel:ok-with-invalid-archive".into(), "add_archives_parallel returned Ok although one path of the batch is not an archive".into()),
+                        (Err(e), false) => rep.push("chain:add_archives_parallel:error-on-valid-archives".into(), format!("{e}")),
+                        (Err(_), true) => {
+                            // the call failed: whatever members the chain now *reports* (none of the
+                            // batch, or some of it) is the member set its answers must agree with
+                            for (a, prio) in batch {
+                                if let Some(p) = chain.get_priority(&prep.paths[a]) {
+                                    rep.failed_batch_left_members = true;
+                                    model.clock += 1;
+                                    let c = model.clock;
+                                    model.members.push(Member { a, prio: p, added: c, touched: c });
+                                    let _ = prio;
+                                }
+                            }
+                        }
+                    }
+                }
                 Op::Add { a, prio } => {
                     let a = a as usize % prep.paths.len();
                     if model.pos(a).is_some() {
@@ -448,6 +498,7 @@ pub fn run_history(prep: &Prepared, ops: &[Op], probe_seed: u32, level: usize, p
         if before != after {
             match op {
                 Op::Remove { .. } => rep.remove_changed = true,
+                Op::AddBatch { .. } => {}
                 Op::SetPriority { .. } => {
                     // only a change between two non-empty winners counts (membership is unchanged)
                     rep.setprio_changed = true
@@ -563,6 +614,10 @@ pub fn alphabet(n_arch: u8, prios: &[i32]) -> Vec<Op> {
         }
     }
     v.push(Op::Clear);
+    // parallel batches: all valid, and with a path that is not an archive (first / last position)
+    v.push(Op::AddBatch { items: vec![(0, prios[0]), (1, prios[prios.len() - 1])], bad: 255 });
+    v.push(Op::AddBatch { items: vec![(1, prios[0]), (2, prios[0])], bad: 9 });
+    v.push(Op::AddBatch { items: vec![(2, prios[prios.len() - 1]), (0, prios[0])], bad: 0 });
     v
 }
 
